@@ -222,7 +222,7 @@ Proof. exact C10_converges_rs_inst. Qed.
 Print Assumptions C10_converges_rs_fops.
 
 (* ---------- the hypotheses of C10_converges_rs are satisfiable ---------- *)
-(* exact integer arithmetic as the instance of the floating-point facts; 20 s shutter at 60 %, target 20 %, 1010 callbacks of 10 ms *)
+(* exact integer arithmetic as the instance of the floating-point facts; 2 s shutter at 60 %, target 20 %, 200 callbacks of 10 ms *)
 Definition zops10 : fpops := {|
   fp_rem := fun r T => r * T / 10000; fp_dot := fun t T => 10000 * t / T; fp_tod := fun d T => d * T / 10000;
   fp_margin := fun F m => F * m / 100; fp_cal := fun F => F * 11 / 10 |}.
@@ -233,12 +233,12 @@ Proof.
 Qed.
 Definition ex_k : kcfg := {| k_boot := 0; k_tilt_ms := 0; k_tilt_type := 0; k_margin := 5; k_add_margin := 5; k_autocal_flag := false;
                              k_recal_flag := false; k_mot_up := 0; k_mot_down := 0; k_mot_start := 0 |}.
-Definition ex_d0 : dev := C10.Model.init ex_k 6100 0 20000 20000 0 0 0 0.
-Definition ex_cbs : list (Z * Z) := repeat (10000, 0) 1010.
+Definition ex_d0 : dev := C10.Model.init ex_k 6100 0 2000 2000 0 0 0 0.
+Definition ex_cbs : list (Z * Z) := repeat (10000, 0) 200.
 
 Example C10_converges_rs_example :
   let d := run zops10 ex_k ex_d0 (Task 20 (-1) :: cbs_of ex_cbs) in
-  up_on d = false /\ down_on d = false /\ delayed d = None /\ Z.abs (C10.Model.pos d - 100 - 20 * 100) * (20000 * 1000) < 10000 * 10000 + 30000.
+  up_on d = false /\ down_on d = false /\ delayed d = None /\ Z.abs (C10.Model.pos d - 100 - 20 * 100) * (2000 * 1000) < 10000 * 10000 + 30000.
 Proof.
   assert (I : idle ex_d0) by (constructor; try reflexivity; left; reflexivity).
   assert (St : stamped ex_k ex_d0) by reflexivity.
@@ -248,7 +248,7 @@ Proof.
   pose proof (C10_converges_rs zops10 ex_k 10000 ex_d0 20 ex_cbs zops10_ok (conj eq_refl eq_refl) eq_refl I St ltac:(lia) Hcp) as H.
   cbv zeta in H.
   assert (Ed : dir_to ex_d0 20 = true) by reflexivity. rewrite Ed in H.
-  assert (EF : full_k true ex_d0 = 20000) by reflexivity. rewrite EF in H.
+  assert (EF : full_k true ex_d0 = 2000) by reflexivity. rewrite EF in H.
   specialize (H ltac:(lia) ltac:(lia) ltac:(vm_compute; discriminate) Hev ltac:(vm_compute; discriminate)).
   destruct H as (U & D & Dl & _ & _ & Acc). cbv zeta. repeat split; assumption.
 Qed.
